@@ -509,6 +509,12 @@ func (l *loopState) notifySteps() { //nolint:gocognit
 		if failed {
 			if nodeItem.Kind == DAGItemKindOutput {
 				l.logger.Debugf("Output node %s failed", nodeID)
+				if _, stillWaiting := l.waitingOutputs[nodeID]; !stillWaiting {
+					// Already reported when an earlier dependency of this output failed. Every further
+					// failing dependency marks the node ready again; reporting each of them would
+					// overflow the bounded error channel while the lock is held.
+					continue
+				}
 				// Check to see if there are any remaining output nodes, and if there aren't,
 				// cancel the context.
 				delete(l.waitingOutputs, nodeID)
